@@ -54,7 +54,36 @@ def ground(*m):
     c.grounds.append(tuple(m))
     for q in list(c.qfacts):
         _inst(q, tuple(m))
+    if len(m) == 1 and not c.memo.get("grounding_shift"):
+        # slice-offset heuristic: an index into a[lo:hi] corresponds to index + lo of a (and back)
+        c.memo["grounding_shift"] = True
+        try:
+            for off in list(c.memo.get("offsets", [])):
+                ground(simp(zi(m[0]) + zi(off)))
+                ground(simp(zi(m[0]) - zi(off)))
+        finally:
+            c.memo["grounding_shift"] = False
     return m[0] if len(m) == 1 else m
+
+
+def note_offset(lo):
+    """remember the lower bound of a symbolic slice (see ground)"""
+    c = cur()
+    if is_pyint(lo):
+        return
+    offs = c.memo.setdefault("offsets", [])
+    key = zi(lo).sexpr()
+    if any(zi(o).sexpr() == key for o in offs) or len(offs) >= 4:
+        return
+    offs.append(lo)
+    c.memo["grounding_shift"] = True
+    try:
+        for g in list(c.grounds):
+            if len(g) == 1:
+                ground(simp(zi(g[0]) + zi(lo)))
+                ground(simp(zi(g[0]) - zi(lo)))
+    finally:
+        c.memo["grounding_shift"] = False
 
 
 def _inst(q, m):
@@ -914,6 +943,8 @@ def getitem(a, key):
             else:
                 lo = _norm_bound(k.start, n, 0)
                 hi = _norm_bound(k.stop, n, n)
+                if a.ndim <= 3:
+                    note_offset(lo)
                 ln = sym.sub(hi, lo)
                 if is_pyint(ln):
                     ln = max(ln, 0)
@@ -1369,14 +1400,10 @@ def make_sum(extents, summand):
     def mk(expr, sort, tag):
         """the sum as an uninterpreted function of the free constants of its summand (so that sums over the same
         template at provably equal parameters are equal by congruence)"""
-        e = z3.simplify(expr)
-        ext_e = [zi(n) if not is_pyint(n) else z3.IntVal(n) for n in extents]
-        free = free_consts([e] + ext_e)
-        holes = [z3.Const(f"hole!{j}", x.sort()) for j, x in enumerate(free)]
-        pairs = list(zip(free, holes))
-        tmpl = z3.substitute(e, *pairs) if pairs else e
-        ext_t = tuple((z3.substitute(x, *pairs) if pairs else x).sexpr() for x in ext_e)
-        key = ("sum", tag, tmpl.sexpr(), ext_t, tuple(str(x.sort()) for x in free))
+        e = c.rewrite(z3.simplify(expr))
+        ext_e = [c.rewrite(zi(n)) if not is_pyint(n) else z3.IntVal(n) for n in extents]
+        tk, free = sym.template_of([e] + ext_e, bids)
+        key = ("sum", tag, tk)
         decl = c.memo.get(key)
         if decl is None:
             nm = c.fresh_name("SUM" + tag)
@@ -1623,13 +1650,28 @@ def _argext(a, better, skip_nan, name, total=False):
         probe = at(bv)
     finally:
         c.numpy_mode -= 1
-    key = ("argext", name, zi(n).sexpr(), z3.simplify(probe.v).sexpr(), zb(probe.nan).sexpr())
+    # the result is an uninterpreted function of the free constants of the generic element (template abstraction): the
+    # same reduction at provably equal parameters is the same index by congruence
+    exprs = [c.rewrite(z3.simplify(probe.v)), c.rewrite(zb(probe.nan)), c.rewrite(zi(n)) if not is_pyint(n) else z3.IntVal(n)]
+    tk, free = sym.template_of(exprs, {bv.get_id()})
+    tkey = ("argext-template", name, tk)
+    import os
+    if os.environ.get("PYVC_DEBUG") and name == "nanargmax":
+        print("TEMPLATE", hash(tk), [str(x) for x in free], tk[0][:300])
+    decls = c.memo.get(tkey)
+    if decls is None:
+        nm = c.fresh_name(name)
+        srt = [x.sort() for x in free]
+        decls = (z3.Function(nm, *srt, z3.IntSort()) if free else z3.Int(nm),
+                 z3.Function(nm + ".allnan", *srt, z3.BoolSort()) if free else z3.Bool(nm + ".allnan"))
+        c.memo[tkey] = decls
+    k = decls[0](*free) if free else decls[0]
+    key = ("argext", k.sexpr())
     if key not in c.memo:
-        k = c.fresh_int(name)
         c.fact(z3.And(k >= 0, k < zi(n)))
         ak = at(k)
         if skip_nan:
-            allnan = c.fresh_bool("allnan")
+            allnan = decls[1](*free) if free else decls[1]
             c.fact(z3.Implies(z3.Not(allnan), zb(Not_(ak.nan))))
             add_qfact(n, lambda m: Implies_(allnan, at(m).nan), "allnan")
 
@@ -1792,23 +1834,8 @@ def series_term(fn1, n):
         v = sym.toC(v)
         exprs = [z3.simplify(v.re), z3.simplify(v.im), zb(v.nan)]
     exprs.append(zi(n) if not is_pyint(n) else z3.IntVal(n))
-    free = []
-    seen = set()
-    for e in exprs:
-        st = [e]
-        while st:
-            x = st.pop()
-            if x.get_id() in seen:
-                continue
-            seen.add(x.get_id())
-            if z3.is_const(x) and x.decl().kind() == z3.Z3_OP_UNINTERPRETED and x.get_id() != bv.get_id() \
-                    and x.sort() in (z3.IntSort(), z3.RealSort(), z3.BoolSort()):
-                free.append(x)
-                continue
-            st.extend(reversed(x.children()))
-    holes = [z3.Const(f"hole!{j}", x.sort()) for j, x in enumerate(free)]
-    pairs = list(zip(free, holes))
-    key = ("series", tuple((z3.substitute(e, *pairs) if pairs else e).sexpr() for e in exprs), tuple(str(x.sort()) for x in free))
+    tk, free = sym.template_of(exprs, {bv.get_id()})
+    key = ("series", tk)
     decl = c.memo.get(key)
     if decl is None:
         nm = c.fresh_name("SER")
